@@ -358,6 +358,30 @@ pub fn run(cx: &mut Ctx) {
                 cx.violation(&format!("C11|{}|{}", name, if all { "same_value_on_every_call" } else { "constant_byte_positions" }),
                     json!({"component":c,"calls":n,"constant_positions":constant.len(),"of":len,"first":hx(&vals[0]),"second":hx(&vals[1])}));
             }
+            // (1b) raw random outputs (not public keys / ciphertexts / hashes derived from them): no *bit* position is
+            //      stuck across the N calls (probability 2^-(N-1) per bit for a uniform source)
+            let lname = name.to_lowercase();
+            let derived = (lname.contains("keypair") && c == 0) || lname.contains("seal") || ((lname.contains("pwhash")) && c == 1);
+            if !derived && constant.is_empty() && n >= 64 {
+                cx.eval();
+                let mut stuck = Vec::new();
+                for i in 0..len {
+                    let mut and = 0xffu8;
+                    let mut or = 0u8;
+                    for v in vals.iter() {
+                        and &= v[i];
+                        or |= v[i];
+                    }
+                    let s = and | !or; // bits that were always 1 or always 0
+                    if s != 0 {
+                        stuck.push((i, s));
+                    }
+                }
+                if !stuck.is_empty() {
+                    cx.violation(&format!("C11|{}|stuck_bit_positions", name), json!({"component":c,"calls":n,"stuck":stuck.iter().take(8).map(|(i, m)| format!("byte {} mask {:#04x}", i, m)).collect::<Vec<_>>()}));
+                }
+                cx.cover("bit_variability_checked", &comp);
+            }
             if len >= 16 {
                 // (2) no value repeats, (3) none is all-zero
                 cx.eval();
